@@ -32,6 +32,7 @@ import (
 	"os"
 	"os/exec"
 	"path/filepath"
+	"runtime/pprof"
 	"sort"
 	"strings"
 	"sync"
@@ -59,8 +60,15 @@ func main() {
 	c.Assume("the schema lines of spec/wire and the generic transaction of spec/ledger/Ledger.tla describe the formats and the ledger (bound to the code by C11 and C01..C08)")
 	c.Assume("a worker process runs one case at a time, so runtime.MemStats.TotalAlloc deltas are the case's allocations; suspicious cases are re-measured alone three times")
 	c.Assume("the v1 block supplement is the node's own data: ValidateBlock checks it against the accumulator before any transaction sees it, so entries that change the CONTENT of supplement elements go through ValidateBlock only (entries about which elements it holds also go through ValidateTransaction)")
+	c.Assume("an allocation above the bound that encoding/json itself makes while it builds the value (slice growth, zeroed elements for null: at most the size of the Go type per array element) is a property of the Go JSON decoder and is counted, not reported; allocations made by functions of core (or by libraries they call) are reported")
 	c.Assume("unstructured random bytes are not generated (that would be fuzzing, not model-based generation)")
 	t0 := time.Now()
+	if pf := os.Getenv("C10_CPUPROFILE"); pf != "" { // development aid
+		if f, err := os.Create(pf); err == nil {
+			pprof.StartCPUProfile(f)
+			defer pprof.StopCPUProfile()
+		}
+	}
 
 	// ---- TLC: malformed encodings (runs while the ledger side works)
 	var regNames []string
@@ -76,6 +84,10 @@ func main() {
 			Workers:  8, Timeout: 20 * time.Minute, Xss: "512m"})
 		close(doneM)
 	}()
+
+	// ---- self-test of the verdict machinery (synthetic entry points through the real guard, in worker processes)
+	canaryDone := make(chan string, 1)
+	go func() { canaryDone <- runCanaries(c) }()
 
 	// ---- TLC: catalogue of extremes
 	exts, fams := loadExtremes(c)
@@ -160,6 +172,11 @@ func main() {
 	ls, rs := runLedger(c, exts)
 	secL := time.Since(tL).Seconds()
 	<-poolDone
+	if msg := <-canaryDone; msg != "" {
+		c.Infra("self-test of the guard failed: %s", msg)
+	} else {
+		c.Cov("guard_selftest", "synthetic entry points: panic, 8 MiB for 16 bytes, missed deadline and process death detected; benign one not flagged")
+	}
 	if cat == nil {
 		c.Finish()
 	}
@@ -219,6 +236,7 @@ func main() {
 		outcomes["unmarshal_error"] += u.Err
 		outcomes["unmarshal_value"] += u.OK
 		remeasured += u.Remeas
+		outcomes["over_bound_but_allocated_by_encoding_json_itself"] += u.Generic
 		if u.Entry == "UnmarshalText" {
 			textTypes[u.Type] += u.N
 		} else {
@@ -279,8 +297,21 @@ func main() {
 	if ls.appliedReverted == 0 {
 		c.Infra("vacuity: no mutated block passed validation (nothing was applied and reverted)")
 	}
-	if float64(len(ls.entriesHit)) < 0.9*float64(len(exts)) && c.Thorough {
-		c.Infra("vacuity: only %d of %d catalogue entries were applied", len(ls.entriesHit), len(exts))
+	// pairs of currency members apply only where both members meet in one transaction; every other entry must be used
+	var never []string
+	nonPair := 0
+	for i, e := range exts {
+		if e.Fam == "cur2" {
+			continue
+		}
+		nonPair++
+		if !ls.entriesHit[i] {
+			never = append(never, e.String())
+		}
+	}
+	c.Cov("ledger_entries_never_applied", never)
+	if c.Thorough && float64(len(never)) > 0.1*float64(nonPair) {
+		c.Infra("vacuity: %d of %d non-pair catalogue entries were never applied: %v", len(never), nonPair, never)
 	}
 	c.Traces(int64(rs.Behaviours))
 	c.Cov("ledger_behaviours_replayed", rs.Behaviours)
@@ -306,7 +337,48 @@ func main() {
 		c.Sample(map[string]any{"decode_case": map[string]any{"type": sh.Type, "class": dc.Class, "variant": dc.Variant, "member": dc.Owner + "." + dc.Path, "valid": fmt.Sprintf("%x", sh.Bytes), "malformed": fmt.Sprintf("%x", dc.B)}})
 	}
 	c.Count(evals, nontrivial)
+	pprof.StopCPUProfile()
 	c.Finish()
+}
+
+// runCanaries checks that the guard flags what it must flag and nothing else; "" = as expected.
+func runCanaries(c *vlib.Ctx) string {
+	dir := filepath.Join(c.Work, "canary")
+	os.MkdirAll(dir, 0o755)
+	lines := filepath.Join(dir, "none.lines")
+	os.WriteFile(lines, []byte("BLOBS []\nFIXED {}\nTAILS []\nJSONCAT []\nTEXTCAT []\nCLASSES []\n"), 0o644)
+	j := job{Kind: "canary", Lines: lines, Out: filepath.Join(dir, "canary.out"), Progress: filepath.Join(dir, "canary.progress"), DeadlineMs: 300}
+	jb, _ := json.Marshal(j)
+	jf := filepath.Join(dir, "canary.job")
+	os.WriteFile(jf, jb, 0o644)
+	if code, stderr, to := runProcess(jf, time.Minute); code != 0 || to {
+		return fmt.Sprintf("canary worker exit %d: %s", code, firstLines(stderr, 3))
+	}
+	out, _ := os.ReadFile(j.Out)
+	got := map[string]bool{}
+	for _, ln := range strings.Split(string(out), "\n") {
+		var v violLine
+		if json.Unmarshal([]byte(ln), &v) == nil && v.K == "viol" {
+			got[v.Key] = true
+		}
+	}
+	want := []string{"canary/panics/panic", "canary/allocates/alloc", "canary/hangs/hang"}
+	for _, k := range want {
+		if !got[k] {
+			return "not detected: " + k
+		}
+	}
+	if len(got) != len(want) {
+		return fmt.Sprintf("flagged more than it should: %v", got)
+	}
+	k := job{Kind: "canary-kill", Lines: lines, Out: filepath.Join(dir, "kill.out"), Progress: filepath.Join(dir, "kill.progress")}
+	kb, _ := json.Marshal(k)
+	kf := filepath.Join(dir, "kill.job")
+	os.WriteFile(kf, kb, 0o644)
+	if code, _, to := runProcess(kf, time.Minute); code == 0 || to {
+		return "the death of a worker process was not noticed"
+	}
+	return ""
 }
 
 func minOf(m map[string]int) int {
